@@ -1,0 +1,14 @@
+//go:build verif
+
+package dv
+
+// VerifGateHook, when set, is called before the router mutex is acquired by ribUpdate ("ribUpdate"), checkDeadNeighbors
+// ("deadcheck"), advertDataHandler ("advertData") and advertSyncOnInterest ("advertSync"): a conformance harness parks
+// the calling goroutine there and releases it step by step (arg: the neighbour state a ribUpdate was queued with).
+var VerifGateHook func(dv *Router, site string, arg any)
+
+func verifGate(dv *Router, site string, arg any) {
+	if h := VerifGateHook; h != nil {
+		h(dv, site, arg)
+	}
+}
